@@ -1225,6 +1225,24 @@ func corpus() []sCase {
 				return sPod{Name: n, NS: "ns1", Labels: app("a"), CPU: "1700m", NodeSel: map[string]string{teamKey: "x"},
 					Spread: []sSpread{{Key: zoneKey, MaxSkew: 1, Sel: selfSel("a")}}}
 			})},
+		// consolidation-style pass: node-0 is a candidate, its pod a-old is rescheduled (excludedPods) and pinned to z2; b-0 needs
+		// zone affinity to app=a and must not be attracted by a-old's former zone z1
+		{Kind: "solve", Workers: 1, Pools: []sPool{{Name: "pool-a", Weight: 10}},
+			Nodes: []sNode{{Name: "node-0", Candidate: true, Labels: map[string]string{hostKey: "node-0", ctKey: "on-demand", zoneKey: "z1"}}},
+			Bound: []sPod{{Name: "a-old", NS: "ns1", Labels: app("a"), CPU: "1700m", Node: "node-0", Resched: true, NodeSel: map[string]string{zoneKey: "z2"}}},
+			Batch: []sPod{{Name: "b-0", NS: "ns1", Labels: app("b"), CPU: "2500m", Aff: []sTerm{{Key: zoneKey, Sel: selfSel("a")}}}}}, // too big to share a-old's node
+		// API fault while the topology is built: a bound pod and a batch pod carry anti-affinity terms with a namespace selector,
+		// listing namespaces fails -> the scheduler must not be built (nothing may be placed on wrong counts)
+		{Kind: "solve", Workers: 1, Fault: "new:list-namespaces", Pools: []sPool{{Name: "pool-a", Weight: 10}},
+			Nodes: []sNode{{Name: "node-0", Labels: map[string]string{hostKey: "node-0", ctKey: "on-demand", zoneKey: "z1"}}},
+			Bound: []sPod{{Name: "bound-0", NS: "ns1", Labels: app("a"), CPU: "100m", Node: "node-0", Tolerates: true,
+				Anti: []sTerm{{Key: zoneKey, Sel: selfSel("b"), NsSel: &sSel{}}}}},
+			Batch: []sPod{{Name: "b-0", NS: "ns2", Labels: app("b"), CPU: "300m", Anti: []sTerm{{Key: hostKey, Sel: selfSel("a"), NsSel: &sSel{}}}}}},
+		// the same cluster with List Pods failing: bound-0's anti-affinity against app=b must not be lost
+		{Kind: "solve", Workers: 1, Fault: "new:list-pods", Pools: []sPool{{Name: "pool-a", Weight: 10}},
+			Nodes: []sNode{{Name: "node-0", Labels: map[string]string{hostKey: "node-0", ctKey: "on-demand", zoneKey: "z1"}}},
+			Bound: []sPod{{Name: "bound-0", NS: "ns1", Labels: app("a"), CPU: "100m", Node: "node-0", Tolerates: true}},
+			Batch: []sPod{{Name: "b-0", NS: "ns1", Labels: app("b"), CPU: "300m", NodeSel: map[string]string{zoneKey: "z1"}, Anti: []sTerm{{Key: zoneKey, Sel: selfSel("a")}}}}},
 		// matchLabelKeys: two bound pods of revision 1 in z1 must not count for the revision-2 carriers
 		{Kind: "solve", Workers: 1, Pools: []sPool{{Name: "pool-a", Weight: 10}},
 			Nodes: []sNode{{Name: "node-0", Labels: map[string]string{hostKey: "node-0", ctKey: "on-demand", zoneKey: "z1"}}},
